@@ -56,7 +56,8 @@ def gen_item(rng, idx):
         if n in names or n in ("instantiate", "new"):
             continue
         names.add(n)
-        handler = is_iface or rng.random() < 0.6
+        # interface traits may hold helper methods too (no `sv::msg`): their parameters keep their attributes
+        handler = rng.random() < (0.75 if is_iface else 0.6)
         methods.append((n, rng.choice(kinds) if handler else None, handler))
     if any(k == "migrate" for _, k, _ in methods):
         seen = False
